@@ -723,6 +723,28 @@ fn run_stream(c: &StreamCase) -> CaseResult {
         .class_if(victim_res.is_err(), "victim-err"))
 }
 
+/// Byte-level entry for libFuzzer: byte 0 selects the decoder, the rest is its literal input.
+pub fn fuzz_bytes(data: &[u8]) -> Option<crate::engine::FuzzOutcome> {
+    let (sel, rest) = data.split_first()?;
+    let c = Case { target: TARGETS[*sel as usize % TARGETS.len()], base: 0, other: 0, muts: vec![], noise: Some(rest.to_vec()) };
+    Some(crate::engine::FuzzOutcome { sub: "decoders".into(), case: serde_json::to_value(&c).ok()?, result: crate::engine::guarded(|| run_case(&c)) })
+}
+
+/// Starting corpus for libFuzzer: valid encodings of every decoder's input (built by the same generator as the campaigns).
+pub fn fuzz_seed_corpus() -> Vec<Vec<u8>> {
+    let mut out = Vec::new();
+    for (i, t) in TARGETS.iter().enumerate() {
+        for seed in 0..24u64 {
+            let mut v = vec![i as u8];
+            v.extend(valid_encoding(*t, seed.wrapping_mul(0x9E37_79B9_7F4A_7C15) ^ 0x51));
+            if v.len() <= 2048 {
+                out.push(v);
+            }
+        }
+    }
+    out
+}
+
 pub fn run(ctx: &mut Ctx) {
     ctx.rule = "(decoders) target in {multistream Message, webrtc_listener_negotiate, WebRtcDialerState::register_response, KademliaMessage::from_bytes, identify wire type + its \
         multiaddrs, bitswap message + CIDs + block_to_response, bitswap prefix, public key, peer id bytes/text, multiaddr}; input = a structured valid value encoded with the \
